@@ -30,7 +30,32 @@ pub fn run_seed(seed: u64, id: &str, idx: u64) -> u64 {
 }
 
 /// Execute a spec; a panic that escapes the scenario (i.e. not inside `guard`) is a harness error.
+struct Discard;
+impl log::Log for Discard {
+    fn enabled(&self, _: &log::Metadata) -> bool {
+        true
+    }
+    fn log(&self, record: &log::Record) {
+        // the arguments are evaluated (that is the point) and dropped
+        let _ = format!("{}", record.args());
+    }
+    fn flush(&self) {}
+}
+static DISCARD: Discard = Discard;
+
+/// The application's logging configuration is part of the environment a library runs in. A logger
+/// that evaluates and discards every record is installed once per process; each run raises or lowers
+/// the global max level according to its spec.
+pub fn install_logger() {
+    let _ = log::set_logger(&DISCARD);
+    log::set_max_level(log::LevelFilter::Off);
+}
+
 pub fn execute_guarded(scn: &dyn Scenario, spec: &Spec, st: &mut Stats) -> RunEnd {
+    log::set_max_level(if spec.logger { log::LevelFilter::Trace } else { log::LevelFilter::Off });
+    if spec.logger {
+        st.count("fault:trace_logger_enabled");
+    }
     match catch_unwind(AssertUnwindSafe(|| scn.execute(spec, st))) {
         Ok(r) => r,
         Err(_) => {
